@@ -727,7 +727,7 @@ fn minimal_lax(p: P, s: &str, v: &Val) -> Option<u32> {
 // statistics, deterministic violation aggregation
 // ---------------------------------------------------------------------------------------------
 
-const VIOL_CALL_CAP: u64 = 100_000;
+const VIOL_CALL_CAP: u64 = 1_000;
 const O_ACC_CANON: usize = 0; // accepted, string is the displayed form of the value
 const O_ACC_ALT: usize = 1; // accepted, documented alternative spelling
 const O_ACC_BAD: usize = 2; // accepted, not in the documented grammar (violation)
@@ -1113,7 +1113,7 @@ fn value_blocks(thorough: bool) -> (Vec<Block>, String) {
     let iac = ia_corner();
     let ia_full: Vec<u64> = ISDS.iter().flat_map(|i| asns.iter().map(move |a| ia(*i, *a))).collect();
     // ISD-AS set used for "every single-group AS inside an address"
-    let ia_wide: Vec<u64> = if thorough { ia_full.clone() } else { [1u16, 65535].iter().flat_map(|i| asns.iter().map(move |a| ia(*i, *a))).collect() };
+    let ia_wide: Vec<u64> = if thorough { ia_full.clone() } else { [1u16].iter().flat_map(|i| asns.iter().map(move |a| ia(*i, *a))).collect() };
     let (v4, v6, svc) = (v4_set(), v6_set(), svc_all());
     let ip: Vec<Host> = v4.iter().chain(v6.iter()).copied().collect();
     let any: Vec<Host> = ip.iter().chain(svc.iter()).copied().collect();
@@ -1186,9 +1186,9 @@ fn value_blocks(thorough: bool) -> (Vec<Block>, String) {
          ScionSocketAddr{{,V4,V6,Svc}}/ScionSocketIpAddr = 35 ISD-AS x every admitted host (incl. every svc) x {}, plus every single-group AS x {} ISD x one host per kind x {}; \
          TXT payload and record: 1 and 2 entries over 35 ISD-AS x 20 IP, 3 entries over 25 entries",
         asns.len(),
-        if thorough { "5" } else { "2 (1, 65535)" },
+        if thorough { "5" } else { "1 (ISD 1)" },
         if thorough { "ports {0,1,80,65535}" } else { "port 80, and x ports {0,1,80,65535} for the 20 IP + 9 named/corner svc hosts" },
-        if thorough { "5" } else { "2" },
+        if thorough { "5" } else { "1" },
         if thorough { "4 ports" } else { "port 80" },
     );
     (b, desc)
@@ -1688,10 +1688,11 @@ pub fn run(args: &vpc::Args) -> ! {
 
     let witnesses_per_class: BTreeMap<String, u64> = all.viols.iter().map(|(k, a)| (k.clone(), a.count)).collect();
     for (class, a) in &all.viols {
-        run.violation(class, &a.what, a.min.json());
-        // exact witness counts are in coverage.witnesses_per_class; the Run counter is capped
-        for _ in 1..a.count.min(VIOL_CALL_CAP) {
-            run.violation(class, &a.what, Value::Null);
+        // `Run` keeps the smallest witness it is given: hand it the minimal one of the class only.
+        // Exact witness counts are in coverage.witnesses_per_class; the Run counter is capped.
+        let w = a.min.json();
+        for _ in 0..a.count.min(VIOL_CALL_CAP) {
+            run.violation(class, &a.what, w.clone());
         }
     }
 
